@@ -732,7 +732,12 @@ func c45CheckCDS(u *ClusterUpdate) *c45Viol {
 	if u.OutlierDetection != nil && !json.Valid(u.OutlierDetection) {
 		return &c45Viol{"cds-outlier-detection-not-json", "outlier detection config is not valid JSON"}
 	}
-	if u.TelemetryLabels["csm.service_name"] == "" || u.TelemetryLabels["csm.service_namespace_name"] == "" {
+	// A79: both service labels are always present ("unknown" if xDS does not carry
+	// them).  A label that xDS carries as an empty string is faithfully the empty
+	// string, so only presence is required.
+	_, okName := u.TelemetryLabels["csm.service_name"]
+	_, okNS := u.TelemetryLabels["csm.service_namespace_name"]
+	if !okName || !okNS {
 		return &c45Viol{"cds-telemetry-labels", "CSM telemetry labels missing"}
 	}
 	return nil
